@@ -217,6 +217,8 @@ var keyPool = func() []keyEntry {
 		mkKey[uint64]("u64b", tyUint64), mkKey[int64]("i64b", tyInt64), mkKey[float64]("n", tyFloat64),
 		builtinKey[slog.Level]("log_level", tyLogLevel, errdef.LogLevel, errdef.LogLevelFrom),
 		builtinKey[int]("http_status", tyInt, errdef.HTTPStatus, errdef.HTTPStatusFrom),
+		// pointers to non-scalar, non-JSON element types (tryConvertPointer): unmarshal checks only
+		mkKey[*[2]int]("parr", 125), mkKey[**string]("pps", 126),
 	}
 	for i := range ks {
 		ks[i].ID = i
